@@ -1017,6 +1017,17 @@ impl<W: Word, B: AsRef<[W]>> crate::traits::UncheckedIterator
     unsafe fn next_unchecked(&mut self) -> W {
         let bit_width = self.vec.bit_width;
 
+        if bit_width == W::BITS {
+            // One value per word: the window logic below would shift by
+            // W::BITS.
+            if self.fill != 0 {
+                self.fill = 0;
+                return self.window;
+            }
+            self.word_index -= 1;
+            return *self.vec.bits.as_ref().get_unchecked(self.word_index);
+        }
+
         if self.fill >= bit_width {
             self.fill -= bit_width;
             self.window = self.window.rotate_left(bit_width as u32);
